@@ -437,8 +437,8 @@ def nsga2_step_request(rr, it, order=None):
             j = next((len(offs) + k for k, pr in enumerate(parents)
                       if tuple(pr.vector) == tv and (len(offs) + k) not in used), None)
         if j is None:
-            return None, None, surv, ("step-member", "iteration %d: the recorded design %r of generation %d is neither an "
-                                      "offspring of this iteration nor a copy of one of its parents" % (it, list(sv.vector), it + 2))
+            return None, None, surv, ("step-member", "NSGA-II %s, iteration it=%d: the recorded design %r of generation %d is neither an "
+                                      "offspring of this iteration nor a copy of one of its parents" % (cfg, it, list(sv.vector), it + 2))
         used.add(j)
         pos.append(j)
     merged = [tuple(o.vector) for o in offs] + [tuple(pr.vector) for pr in parents]
@@ -614,8 +614,8 @@ def check_eps_run_answer(rr, ans):
 
 def step_cfgs(ctx):
     rng = ctx.rng
-    n2 = 22 if ctx.quick else 260
-    ne = 8 if ctx.quick else 90
+    n2 = 22 if ctx.quick else 2500
+    ne = 8 if ctx.quick else 800
     out = []
     for k in range(n2 + ne):
         algo = "nsga2" if k < n2 else "epsmoea"
@@ -639,8 +639,52 @@ def record_or_skip(ctx, cfg):
     return rr
 
 
+def step_clauses(rr, it):
+    """The clauses of the property evaluated directly on one observed iteration (for the report)."""
+    cfg, p, rec = rr["cfg"], rr["p"], rr["gens"][it]
+    surv = [i for i in p.individuals if i.population_id == it + 2]
+    out = []
+    if len(surv) != cfg["N"]:
+        out.append("generation %d has %d designs instead of N = %d" % (it + 2, len(surv), cfg["N"]))
+    vs = [tuple(i.vector) for i in surv]
+    if len(set(vs)) != len(vs):
+        out.append("generation %d contains a repeated design" % (it + 2))
+    end = rr["gens"][it + 1]["log_pos"] if it + 1 < len(rr["gens"]) else len(p.calls)
+    ok = sum(1 for c in p.calls[rec["log_pos"]:end] if c[2] == "o")
+    if ok != cfg["N"]:
+        out.append("%d successful evaluations in this iteration instead of N = %d" % (ok, cfg["N"]))
+    dropped = [q for q in rec["parents"] if tuple(q.vector) not in set(vs)]
+    for sv in surv:
+        for d in dropped:
+            if sv.costs_signed and d.costs_signed and spec_pareto(d.costs_signed[:-1], sv.costs_signed[:-1], d.costs_signed[-1], sv.costs_signed[-1]) == 1:
+                out.append("survivor %r (signed costs %r) is dominated by the dropped design %r (signed costs %r) of generation %d"
+                           % (list(sv.vector), sv.costs_signed, list(d.vector), d.costs_signed, it + 1))
+                return out
+    return out
+
+
+def with_clauses(rr, res):
+    """Append the violated clauses of the property to a step / run failure."""
+    if rr["cfg"]["algo"] != "nsga2":
+        return res
+    cl = []
+    for it in range(len(rr["gens"])):
+        cl += ["iteration %d: %s" % (it, c) for c in step_clauses(rr, it)]
+    if cl:
+        return (res[0], res[1] + " -- clauses of the property violated by the observed run: " + "; ".join(cl[:4]))
+    return res
+
+
 def check_recorded(ctx, recs):
     """Replay recorded runs through the Lean model.  Returns the first failure (key, what, cfg) or None."""
+    res = check_recorded_(ctx, recs)
+    if res is None:
+        return None
+    rr = next(r for r in recs if r["cfg"] is res[2])
+    return with_clauses(rr, res[:2]) + (res[2],)
+
+
+def check_recorded_(ctx, recs):
     # pass 1: every NSGA-II iteration with the provisional set() oracle
     reqs = []
     for rr in recs:
